@@ -9,9 +9,12 @@ LEVEL = "fault_enumeration"
 def run(ctx):
     q = ctx.quick
     ks = wcat.kill_scenarios()
+    kf = wcat.kill_fail_scenarios()
     plan = [
         {"scens": ks, "policies": ("FIFO",), "kills": {"restart_bound": 0}},
         {"scens": ks, "policies": ("JOBS",), "kills": {"restart_bound": 0}},
+        {"scens": kf, "policies": ("FIFO",), "kills": {"restart_bound": 0}},
+        {"scens": kf, "policies": ("LIFO",), "kills": {"restart_bound": 0}},
         {"scens": [ks[0], ks[3]] if q else ks, "policies": ("FIFO",), "kills": {"restart_bound": 1}},
         {"scens": ks[:3] if q else ks, "policies": ("LIFO",), "kills": {"restart_bound": 0}},
     ]
